@@ -6,7 +6,7 @@
 import re, json
 import os, copy, shutil, tempfile
 import numpy as np
-from pmv import common, gen, observe, instrument
+from pmv import common, gen, corpus, observe, instrument
 from pmv.oracles import georef
 
 ID   = 'C15'
@@ -30,10 +30,15 @@ MAX_DISCARD = 0.35
 
 def plan (tier, seed):
     n = 320 if tier == 'quick' else 8000
-    return [dict (i = i, seed = seed) for i in range (n)]
+    return [dict (i = i, seed = seed) for i in range (n)] + corpus.plan_cases (seed, tier, 1, 3)
 # end def plan
 
 def make (c):
+    if 'corpus' in c:
+        # the repository's hand-made option files (other voltages; variants at a moved frequency)
+        spec = corpus.make (c, 15)
+        spec ['style'] = 'corpus'
+        return spec
     rng = np.random.default_rng ([c ['seed'], 15, c ['i']])
     env = str (rng.choice (['free', 'free', 'ideal', 'real1', 'real2', 'real3', 'radials']))
     if env == 'free':
